@@ -64,7 +64,7 @@ func main() {
 	cfg.SafeNames = !*stress
 	switch os.Args[1] {
 	case "idl":
-		p := idlgen.Generate(vl.NewRng(*seed), cfg)
+		p := idlgen.Generate(vl.NewRng(vl.NewRng(*seed).U64()), cfg)
 		files := p.Render()
 		var names []string
 		for n := range files {
@@ -78,7 +78,7 @@ func main() {
 			fmt.Println(l)
 		}
 	case "build":
-		r := vl.NewRng(*seed)
+		r := vl.NewRng(vl.NewRng(*seed).U64())
 		var us []batch.Unit
 		for i := 0; i < *nunits; i++ {
 			us = append(us, batch.Unit{Prog: idlgen.Generate(r, cfg), Recurse: true, Options: optionSets[i%len(optionSets)]})
@@ -166,7 +166,8 @@ func run(repo, dir string, seed uint64, nunits, nvalues int, cfg idlgen.Config, 
 	}
 	out := vl.NewOut(dir)
 	defer out.Close()
-	r := vl.NewRng(seed)
+	// vl.NewRng(seed) and vl.NewRng(seed+1) are the same stream shifted by one draw: derive a mixed seed
+	r := vl.NewRng(vl.NewRng(seed).U64())
 
 	// ---- units: K programs x 3 option sets, plus one fastgo unit
 	var units []batch.Unit
